@@ -469,3 +469,73 @@ Fixpoint run (st : state) (ops : list op) : state * list (sid * frame) :=
 (* an empty loaded topic *)
 Definition init (k : kind) (owner : uid) (defacs : mode) (users : list (uid * pud)) (rows : list (uid * mode)) : state :=
   mkState k owner defacs users [] 0%Z [] rows [].
+
+(* ------------------------------------------------------------------ *)
+(* The {info} branch of the same loop (broadcastToSessions 1285-1302): relays of {note} (read / recv
+   receipts and key presses, handleNoteBroadcast 1105-1235) and {info} frames forwarded from another
+   topic (Src != "").  Whether a read/recv note is stale is decided by the read/recv marks (C09) and is
+   not modelled here; [note_permitted] is the permission part of handleNoteBroadcast. *)
+Definition W_KP : N := 0.      (* "kp"; "kpa"/"kpv" are other tokens (3, 4): only "kp" has the same-user rule *)
+Definition W_READ : N := 1.
+Definition W_RECV : N := 2.
+
+Record infoctx := mkIx {
+  ix_skip : option sid;        (* msg.SkipSid: the originating session of a note relay *)
+  ix_src : bool;               (* msg.Info.Src != "": forwarded from another topic, permissions checked there *)
+  ix_skipsubs : list sid;      (* sessions that have a subscription to msg.Info.SkipTopic ([] when it is "") *)
+  ix_what : N;
+  ix_from : uid;               (* msg.Info.From *)
+  ix_topic : tname;            (* msg.Info.Topic before the per-recipient rewrite *)
+  ix_seq : Z }.
+
+Record iframe := mkIFrame { i_topic : tname; i_from : uid; i_what : N; i_seq : Z }.
+Inductive idelivery := ISent (f : iframe) | IOverflow.
+
+(* prepareBroadcastableMessage for an {info}: only the topic name is per recipient *)
+Definition prepare_info (st : state) (d : psd) (f : iframe) : iframe :=
+  match st_kind st with
+  | KP2P => if ss_uid d =? 0 then f else mkIFrame (original st (ss_uid d)) (i_from f) (i_what f) (i_seq f)
+  | KChn => mkIFrame (if ss_chan d then TChn else original st (ss_uid d)) (i_from f) (i_what f) (i_seq f)
+  | KGrp => f
+  end.
+
+Fixpoint info_loop (st : state) (ix : infoctx) (l : list (sid * psd)) : list (sid * idelivery) :=
+  match l with
+  | [] => []
+  | (s, d) :: r =>
+    if match ix_skip ix with Some k => s =? k | None => false end then info_loop st ix r
+    else if negb (ix_src ix) && (ss_chan d || negb (user_is_reader st (ss_uid d))) then info_loop st ix r
+    else if mem s (ix_skipsubs ix) then info_loop st ix r
+    else if (ix_what ix =? W_KP) && (ix_from ix =? ss_uid d) then info_loop st ix r
+    else
+      let cp := prepare_info st d (mkIFrame (ix_topic ix) (ix_from ix) (ix_what ix) (ix_seq ix)) in
+      (s, if is_full st s then IOverflow else ISent cp) :: info_loop st ix r
+  end.
+
+Definition info_fanout (st : state) (ix : infoctx) : list (sid * idelivery) := info_loop st ix (st_sess st).
+
+Fixpoint isent (l : list (sid * idelivery)) : list (sid * iframe) :=
+  match l with
+  | [] => []
+  | (s, ISent f) :: r => (s, f) :: isent r
+  | (_, IOverflow) :: r => isent r
+  end.
+
+(* one {note what=kp|kpa|kpv|read|recv} from an attached session *)
+Record notectx := mkNx {
+  nx_sid : sid; nx_from : uid; nx_chan : bool; nx_orig : tname; nx_what : N; nx_seq : Z }.
+
+(* the permission part of handleNoteBroadcast: bogus id, channel addressing, W for key presses, R for
+   receipts (a deleted subscription has no permissions), nothing is relayed for a channel reader *)
+Definition note_permitted (st : state) (nx : notectx) : bool :=
+  let p := get_pud st (nx_from nx) in
+  let m := if pu_deleted p then 0 else eff p in
+  (nx_seq nx <=? st_lastid st)%Z && chan_ok st (nx_chan nx) && negb (nx_chan nx) &&
+  (if (nx_what nx =? W_READ) || (nx_what nx =? W_RECV) then has m bR else has m bW).
+
+Definition info_of_note (nx : notectx) : infoctx :=
+  mkIx (Some (nx_sid nx)) false [] (nx_what nx) (nx_from nx) (nx_orig nx) (nx_seq nx).
+
+(* the {info} frames a relayed note puts into session queues *)
+Definition note_relay (st : state) (nx : notectx) : list (sid * idelivery) :=
+  if note_permitted st nx then info_fanout st (info_of_note nx) else [].
